@@ -1364,6 +1364,19 @@ func init() {
 		run: func(g *Gen, c int) ([]string, []string, bool) {
 			r := g.r
 			var viol []string
+			// the measure itself, against a table that does not come from the library (the one place where
+			// display width is not "whatever StringCells says"): narrow, wide, combining, zero-width, controls,
+			// a flag, ill-formed bytes, box glyphs — with East-Asian width off, as everywhere but in E03
+			for _, p := range []struct {
+				s string
+				w int
+			}{{"", 0}, {"a", 1}, {"abc", 3}, {" ", 1}, {"é", 1}, {"e\u0301", 1}, {"世", 2}, {"世界", 4}, {"ｗ", 2}, {"\u200b", 0},
+				{"\u0301", 0}, {"\t", 0}, {"\x7f", 0}, {"\x01", 0}, {"😀", 2}, {"─", 1}, {"┃", 1}, {"╬", 1}, {"•", 1}, {"Ω", 1},
+				{"a\u0301b", 2}, {"x世y", 4}, {"\u00ad", 0}} {
+				if got := length.StringCells(p.s); got != p.w {
+					viol = append(viol, fmt.Sprintf("StringCells(%q) = %d; the reference table of display widths has %d", p.s, got, p.w))
+				}
+			}
 			for i := 0; i < 8; i++ {
 				s := r.text(alphaLen, 7)
 				if i == 0 {
